@@ -407,9 +407,17 @@ def rule_signed_and_view(ctx):
     ctx.floor(R, "Signed::verify bodies", len(fs), 1)
     for f in fs:
         t = Inliner(ctx).ret_term(f)
-        ok = t is not None and t[0] == "call" and t[1].endswith("Signature::verify_msg") and field_path(t[2][0])[1] == ["sig"] and field_path(t[2][2])[1] == ["key"] \
-            and any(x[0] == "call" and x[1].endswith("Variant::insert") and field_path(x[2][0])[1] == ["msg"] for x in subterms(t[2][1]))
-        ctx.ob(R, "Signed::verify term", ok, "self.sig.verify_msg(&self.msg.insert(), &self.key)" if ok else "Signed::verify = %s" % (show(t)[:160] if t else None), f.loc())
+        from .sigchain import _hop
+
+        def ins_msg(u):
+            return any(x[0] == "call" and x[1].endswith("Variant::insert") and field_path(x[2][0])[1][-1:] == ["msg"] for x in subterms(u))
+        sig = lambda u: field_path(u)[1][-1:] == ["sig"]
+        key = lambda u: field_path(u)[1][-1:] == ["key"]
+        # the message operand is insert(self.msg) for verify_msg, hash(insert(self.msg)) for verify_hash
+        Tf = ctx.T(f)
+        direct_hash = any(c["q"].endswith("Signature::verify_hash") for c in Tf.calls())
+        msgop = (lambda u: ins_msg(u) and any(x[0] == "call" and x[1].endswith("Msg::hash") for x in subterms(u))) if direct_hash else ins_msg
+        _hop(ctx, R, f, "Signed::verify term", ["Signature::verify_msg", "Signature::verify_hash"], [sig, msgop, key], "self.sig.verify_msg(&self.msg.insert(), &self.key) decides the result")
     hs = [f for f in ctx.F.fns if f.qname == "zksync_consensus_roles::validator::messages::msg::Msg::hash"]
     for f in hs:
         t = Inliner(ctx).ret_term(f)
